@@ -238,7 +238,7 @@ def main():
 
 NA = {}
 assert not [p for p in ALL if p not in CLAIMED], 'all properties are claimed'
-HOOK_COMMITS = ['7b4caa9', '4fb854c', '324160c', '780b1b4', 'dc24c31', '492f3d7', 'f83de05']
+HOOK_COMMITS = ['7b4caa9', '4fb854c', '324160c', '780b1b4', 'dc24c31', '492f3d7', 'f83de05', '16dc978', '5b78809', '9b16399', '627ad9d']
 FIX_COMMITS = ['e1f7f98', '497f892', 'c3da831', 'ae71c22']
 
 if __name__ == '__main__':
